@@ -152,6 +152,18 @@ class Plain:
     pass
 '''
 
+SYNTH_B = '''
+from krrood.adapters.json_serializer import SubclassJSONSerializer
+
+
+class Animal(SubclassJSONSerializer):
+    """same simple name as pyvc_synth_c18.Animal, another module"""
+
+
+class Dog(Animal):
+    pass
+'''
+
 
 def install_import(vm, synth_mod):
     """Assumed contract of importlib for module-level classes of a module named by a (symbolic-free) string."""
@@ -192,6 +204,36 @@ def h_objects():
             back = vm.call(fj, [j], {})
             ok = handed and handed[0][0] is C and handed[0][1] is j and back == ("instance-of", C)
             ctx.check("from_json::hands-over-to-_from_json-of-exactly-the-tagged-class", z3.BoolVal(bool(ok)), detail=f"{cname}: {handed} -> {back!r}")
+            # ... whatever else the payload contains: fields called "type" / "class" / "__class__" / "json_type" do not take part in the dispatch
+            if isinstance(j, PyDict):
+                from pyvc.ops import dict_set
+                for extra_key, extra_val in (("type", "pyvc_synth_c18.Animal"), ("type", "camera"), ("class", "pyvc_synth_c18.Plain"), ("json_type", "x.Y"), ("__type__", "pyvc_synth_c18.Puppy")):
+                    j2 = make_dict(dict_items(j) + [(extra_key, extra_val)])
+                    del handed[:]
+                    try:
+                        back = vm.call(fj, [j2], {})
+                        ok = handed and handed[0][0] is C and back == ("instance-of", C)
+                    except PyRaise as pr:
+                        ok = False
+                    ctx.check("from_json::only-the-tag-key-decides-the-class-whatever-other-fields-the-payload-has", z3.BoolVal(bool(ok)), detail=f"{cname} with {extra_key}={extra_val!r}: {handed}")
+        # two serialisable classes with the SAME simple name in different modules are different classes: the module part of the tag counts
+        vm.loader.add_module("pyvc_synth_c18b", SYNTH_B)
+        for cname in ("Animal", "Dog"):
+            for modname in ("pyvc_synth_c18b", "pyvc_synth_c18"):
+                C = vm.loader.cls(modname, cname)
+                # class creation runs __init_subclass__ of the base (the engine does not create classes: replay it here for every class)
+                for hook_cls in C.mro(vm.loader)[1:]:
+                    if hasattr(hook_cls, "methods") and "__init_subclass__" in hook_cls.methods:
+                        vm.call_func(hook_cls.methods["__init_subclass__"], [C], {})
+                        break
+        for modname in ("pyvc_synth_c18", "pyvc_synth_c18b", "pyvc_synth_c18"):
+            C = vm.loader.cls(modname, "Dog")
+            o = vm.alloc(C, {}, tag=f"a-{modname}.Dog")
+            j = vm.call(tj, [o], {})
+            del handed[:]
+            back = vm.call(fj, [j], {})
+            ctx.check("from_json::classes-with-the-same-simple-name-in-different-modules-are-kept-apart",
+                      z3.BoolVal(bool(handed) and handed[0][0] is C and dict_get(j, "__json_type__") == f"{modname}.Dog"), detail=f"{modname}.Dog: {handed}")
         # an object that is neither a serializer subclass nor registered cannot be serialised silently
         P = vm.loader.cls("pyvc_synth_c18", "Plain")
         try:
